@@ -364,10 +364,10 @@ func moveSignature(key string) (string, bool) {
 	// package path: up to the first '.' after the last '/'
 	slash := strings.LastIndex(fn, "/")
 	dot := strings.Index(fn[slash+1:], ".")
-	if dot < 0 {
-		return "", false
-	}
-	pkg := fn[:slash+1+dot]
+	pkg := ""
+	if dot >= 0 && slash >= 0 {
+		pkg = fn[:slash+1+dot]
+	} // keys that name the function without its package (one rule, one package) share the empty package
 	what := parts[2]
 	if i := strings.LastIndex(what, " #"); i >= 0 && i > len(what)-5 {
 		what = what[:i]
